@@ -186,7 +186,61 @@ def action(chk, facts):
                key="%s:action:%s" % (rule, vn))
 
 
+QUOTED_PRINTERS = [
+    # (function, what is printed between the quotes)
+    ("<cedar_policy_core::ast::annotation::Annotation as std::fmt::Display>::fmt", "annotation value"),
+    ("<cedar_policy_core::ast::policy::StaticPolicy as std::fmt::Display>::fmt", "annotation value"),
+    ("<cedar_policy_core::ast::literal::Literal as std::fmt::Display>::fmt", "string literal"),
+    ("<cedar_policy_core::ast::entity::EntityUID as std::fmt::Display>::fmt", "entity id"),
+    ("cedar_policy_core::est::expr::display_cedarvaluejson", "string literal / record key"),
+]
+ESCAPERS = ("::escape_debug", "Eid::escaped", "::escape_default")
+
+
+def quoted(chk, facts):
+    """Every program string written between double quotes goes through the escaper the lexer's unescaper inverts (escape_debug),
+    so quotes, backslashes and control characters in strings, entity ids, record keys and annotation values cannot end the literal early."""
+    rule = "C05.ESCAPE.quoted"
+    n = 0
+    for name, what in QUOTED_PRINTERS:
+        f = get_fn(chk, facts, rule, name)
+        if f is None:
+            continue
+        L = shape.Labels(f, None, None, call_labels=lambda c, t: ["ESC"] if c.endswith(ESCAPERS) else None)
+        for s_ in fmtstr.sites(f, None, L):
+            if not s_["pieces"] or not s_["args"]:
+                continue
+            k = 0
+            pcs = s_["pieces"]
+            for i, pc in enumerate(pcs):
+                if pc[0] != "arg":
+                    continue
+                before = pcs[i - 1][1] if i > 0 and pcs[i - 1][0] == "lit" else ""
+                after = pcs[i + 1][1] if i + 1 < len(pcs) and pcs[i + 1][0] == "lit" else ""
+                a = s_["args"][k] if k < len(s_["args"]) else {"labels": set()}
+                k += 1
+                if before.endswith('"') and after.startswith('"'):
+                    n += 1
+                    ok = "ESC" in a["labels"]
+                    chk.ob(rule, "%s@L%s" % (name.split("::")[-2].split(" ")[0].strip("<") if "Display" in name else name.split("::")[-1], s_["line"]), ok,
+                           "%s written between quotes %s" % (what, "is escaped (escape_debug)" if ok else "is NOT escaped: a quote or backslash in it breaks the printed text"),
+                           where=f.where(s_["line"]), fn=f.name, key="%s:%s" % (rule, name))
+    chk.floor(rule, "quoted payload sites", n, 5)
+    # patterns: a literal `*` is printed as \* , every other character through escape_debug, the wildcard as *
+    f = get_fn(chk, facts, rule, "<cedar_policy_core::ast::pattern::Pattern as std::fmt::Display>::fmt")
+    if f is not None:
+        lits = []
+        esc = False
+        for s_ in fmtstr.sites(f):
+            if s_["pieces"]:
+                lits += [p_[1] for p_ in s_["pieces"] if p_[0] == "lit"]
+        esc = any(callee(t).endswith("::escape_debug") for _, t in f.calls())
+        ok = sorted(lits) == sorted(["\\*", "*"]) and esc
+        chk.ob(rule, "pattern", ok, "patterns print the wildcard as `*`, a literal star as `\\*` and other characters through escape_debug: literals %s, escape_debug %s" % (lits, esc), where=f.where(), fn=f.name)
+
+
 def check(chk, facts):
+    quoted(chk, facts)
     scope(chk, facts)
     action(chk, facts)
     policy(chk, facts)
